@@ -73,6 +73,7 @@ extern "C" void c10_proper()
 template<typename S>
 static void angles_roundtrip()
 {
+  if (sizeof(S) == 4) vf_tol(2e-5);
   RPY a = rpy();
   Eigen::Matrix3d Rd = reference(a);
   vf_cut(Rd.data(), 9, "R");
@@ -95,6 +96,7 @@ extern "C" void c10_angles_roundtrip_f() { angles_roundtrip<float>(); }
 template<typename S>
 static void rotation_roundtrip()
 {
+  if (sizeof(S) == 4) vf_tol(2e-5);
   static const char * RN[9] = {"r00", "r10", "r20", "r01", "r11", "r21", "r02", "r12", "r22"};
   Eigen::Matrix3d R;
   for (int k = 0; k < 9; ++k) {R.data()[k] = vf_f64(RN[k]);}
@@ -156,6 +158,7 @@ extern "C" void c10_planar()
 template<typename S>
 static void normalisers()
 {
+  if (sizeof(S) == 4) vf_tol(2e-5);
   double v = vf_f64("val");
   vf_assume((v > -4 * vf_pi()) & (v < 4 * vf_pi()));
   S a = between0And2Pi<S>((S)v);
@@ -172,6 +175,7 @@ extern "C" void c10_normalisers_f() { normalisers<float>(); }
 // float builders: same formulae over the reals
 extern "C" void c10_builders_f()
 {
+  vf_tol(2e-5);
   RPY a = rpy();
   Eigen::Vector3f ang((float)a.r, (float)a.p, (float)a.y);
   Eigen::Matrix3d Rref = reference(a);
